@@ -163,7 +163,8 @@ HARNESSES = [
          fp={"get_buffered_data": "env_get_buffered_data", "advance_buffer": "env_advance_buffer",
              "destroy": "it_destroy", "*": "env_never"},
          cases=[dict(id="n%d" % n, defines={"NSPARSE": n, "__NO_CTYPE": None}, tier="quick") for n in (0, 1, 2)] +
-               [dict(id="n3", defines={"NSPARSE": 3, "__NO_CTYPE": None}, tier="thorough")]),
+               [dict(id="n3", defines={"NSPARSE": 3, "__NO_CTYPE": None}, tier="thorough",
+                     timeout=3600)]),   # ~15 min of solver time
     dict(name="handle_line", file="handle_line.c", label="bounded(tokens <= 9, token bytes <= 5)", defines=CT,
          include_dirs=["bin/gensquashfs/src"], malloc_fail=True, flags=["--memory-leak-check"],
          nochecks=["--conversion-check"],   # parse_*(s, -1, ..) idiom, makedev narrowing
